@@ -369,7 +369,9 @@ def run(ctx, name, kind, **kw):
             G2 = dom.curve.mul(dm, dom.G)
             from vf.ref.ecdsa_ref import Domain
             dom2 = Domain(dom.p, dom.curve.a, dom.curve.b, G2[0], G2[1], n, dom.h, c.name + "_registered")
-            new_oid = (1, 3, 132, 0, 200 + len(c.name))
+            # its OID: an unrelated private arc, or one that EXTENDS a shipped curve's OID by a sub-arc, or a proper prefix of one
+            # (object identifiers are compared whole: neither is "the same" as the shipped one)
+            new_oid = {"NIST192p": tuple(c.oid) + (1,), "SECP160r1": tuple(lib.BY_NAME["NIST192p"].oid) + (7, 1), "BRAINPOOLP160r1": tuple(c.oid)[:-1]}.get(c.name, (1, 3, 132, 0, 200 + len(c.name)))
             custom = _c.Curve(dom2.name, c.curve, lib.PointJacobi(c.curve, G2[0], G2[1], 1, n, generator=True), new_oid)
             _c.curves.append(custom)
             try:
